@@ -81,6 +81,8 @@ impl Savepoint {
 impl Drop for Savepoint {
     fn drop(&mut self) {
         if self.ephemeral {
+            #[cfg(redb_verif)]
+            crate::verif_types::pause("savepoint.drop");
             self.transaction_tracker
                 .deallocate_savepoint(self.get_id(), self.get_transaction_id());
         }
